@@ -177,6 +177,29 @@ macro_rules! convert_double_to_uint {
     };
 }
 
+// Float to u64 and u128. The scaled value can need more than the 52 bits the
+// constant leaves room for, but from 2^52 and up it is already an integer and
+// can be cast directly (`as` saturates at uint::MAX).
+macro_rules! convert_float_to_wide_uint {
+    ($float: ident; ($($target: ident),+)) => {
+        $(
+            impl IntoStimulus<$target> for $float {
+                #[inline]
+                fn into_stimulus(self) -> $target {
+                    let max = $target::max_intensity() as f64;
+                    let scaled = (f64::from(self) * max).min(max).max(0.0);
+                    if scaled < f64::from_bits(C52) {
+                        let f = scaled + f64::from_bits(C52);
+                        (f.to_bits().saturating_sub(C52)) as $target
+                    } else {
+                        scaled as $target
+                    }
+                }
+            }
+        )+
+    };
+}
+
 // Uint to float conversion with the formula (x_u32 + C23_u32) - C23_f32, where
 // x is the component. We convert the component to f32 then multiply it by the
 // reciprocal of the float representation max value for u8.
@@ -265,7 +288,8 @@ impl IntoStimulus<f64> for f32 {
         f64::from(self)
     }
 }
-convert_float_to_uint!(f32; direct (u8, u16); via f64 (u32, u64, u128););
+convert_float_to_uint!(f32; direct (u8, u16); via f64 (u32););
+convert_float_to_wide_uint!(f32; (u64, u128));
 
 impl IntoStimulus<f32> for f64 {
     #[inline]
@@ -273,7 +297,8 @@ impl IntoStimulus<f32> for f64 {
         self as f32
     }
 }
-convert_double_to_uint!(f64; direct (u8, u16, u32, u64, u128););
+convert_double_to_uint!(f64; direct (u8, u16, u32););
+convert_float_to_wide_uint!(f64; (u64, u128));
 
 convert_uint_to_larger_uint!(u8; next u16 (u32, u64, u128));
 
